@@ -450,6 +450,63 @@ func propC09(a *Analysis, r *Registry) {
 			})
 		}
 	}
+	// which samples go to the plain-slice functions: an empty or unweighted sample is handed to the
+	// slice function of the same name; a weighted one is not (it would lose its weights)
+	for _, m := range [][2]string{{"MeanCI", "stats.MeanCI"}, {"Variance", "stats.Variance"}, {"StdDev", "stats.StdDev"}} {
+		m := m
+		if fn := b.Fn("C-decision", "stats.(Sample)."+m[0]); fn != nil {
+			b.guard("C-decision", "stats.(Sample)."+m[0]+"/delegates-when", func() {
+				fc := X.FCFor(fn)
+				env := X.EnvFor(fn, "s")
+				calls := fc.CallsTo(m[1])
+				if len(calls) != 1 {
+					r.Fail("C-decision", "stats.(Sample)."+m[0]+"/delegates-when", b.pos(fn), "expected one call of "+m[1])
+					return
+				}
+				b.Eq("C-decision", "stats.(Sample)."+m[0]+"/delegates-when", a.W.InstrPos(calls[0]), fc.ReachCond(calls[0].Block()), env, "len(s.Xs)==0 || s.Weights==nil")
+				b.Eq("C-decision", "stats.(Sample)."+m[0]+"/delegates-what", a.W.InstrPos(calls[0]), fc.Val(calls[0].Call.Args[0]), env, "s.Xs")
+			})
+		}
+	}
+	if fn := b.Fn("C-decision", "stats.(Sample).Bounds"); fn != nil {
+		b.guard("C-decision", "stats.(Sample).Bounds/delegates-when", func() {
+			fc := X.FCFor(fn)
+			env := X.EnvFor(fn, "s")
+			calls := fc.CallsTo("stats.Bounds")
+			if len(calls) != 1 {
+				r.Fail("C-decision", "stats.(Sample).Bounds/delegates-when", b.pos(fn), "expected one call of stats.Bounds")
+				return
+			}
+			b.Eq("C-decision", "stats.(Sample).Bounds/delegates-when", a.W.InstrPos(calls[0]), fc.ReachCond(calls[0].Block()), env, "len(s.Xs)==0 || (!s.Sorted && s.Weights==nil)")
+		})
+		// unsorted and weighted: the extremes over the values of non-zero weight, NaN when there is none
+		b.guard(rB, "stats.(Sample).Bounds/unsorted-weighted", func() {
+			env := X.EnvFor(fn, "s")
+			fc := X.Under(fn, X.AssumeEq(env.MustParse("s.Sorted"), S.False()), X.AssumeCond(env.MustParse("s.Weights==nil"), false),
+				X.AssumeCond(env.MustParse("len(s.Xs)==0"), false))
+			name := "stats.(Sample).Bounds/unsorted-weighted"
+			rv0, rv1 := fc.Sub(fc.RetVal(0)), fc.Sub(fc.RetVal(1))
+			x, xi := fc.elemOf(rv0, env.MustParse("s.Xs"))
+			if x == nil || xi == nil {
+				r.Undecided(rB, name, b.pos(fn), "anchor: the minimum is not built from the elements of s.Xs")
+				return
+			}
+			env.Set("x", x, nil)
+			env.Set("w", S.MakeFn("idx", env.MustParse("s.Weights"), xi), nil)
+			vars := b.LoopSystem(rB, name+"/recurrences", b.pos(fn), fc, S.MakeFn("tuple", rv0, rv1), env, []recSpec{
+				{"mn", "inf(1)", "ite(x<mn && w!=0, x, mn)"}, {"mx", "inf(-1)", "ite(mx<x && w!=0, x, mx)"},
+			})
+			if vars == nil {
+				return
+			}
+			for k, v := range vars {
+				env.Set(k, v, nil)
+			}
+			b.FullScan("C-scan coverage", name+"/visits-all", b.pos(fn), fc, xi, env.MustParse("len(s.Xs)"))
+			b.Eq(rB, name+"/min", b.pos(fn), rv0, env, "ite(isinf(mn, 0), nan(), mn)")
+			b.Eq(rB, name+"/max", b.pos(fn), rv1, env, "ite(isinf(mn, 0), nan(), mx)")
+		})
+	}
 	// weighted Bounds on sorted data: both scans cover every index and pair weight and value at the same index
 	if fn := b.Fn("C-scan coverage", "stats.(Sample).Bounds"); fn != nil {
 		b.guard("C-scan coverage", "stats.(Sample).Bounds/sorted-weighted", func() {
